@@ -362,6 +362,20 @@ def check(pid, tier):
             n += 1
             nviol += 1
 
+    # ---- layer L (thorough tier): re-check the Lean proofs of the tree axioms used by this property's VCs
+    lean = None
+    if tier == "thorough" and real and any("lean:" in a.trusted for a in world.axioms):
+        import subprocess
+        t0 = time.time()
+        try:
+            pr = subprocess.run(["lean", os.path.join(HERE, "lean", "TreeTheory.lean")], capture_output=True, text=True, timeout=900)
+            lean = {"cmd": "lean lean/TreeTheory.lean", "exit": pr.returncode, "errors": (pr.stdout + pr.stderr)[-500:], "wall_s": round(time.time() - t0, 1)}
+        except Exception as e:
+            lean = {"cmd": "lean lean/TreeTheory.lean", "exit": -1, "errors": repr(e)}
+        if lean["exit"] != 0:
+            lines.append(f"CHECK-ERROR lean re-check of the tree axioms failed: {lean['errors'][-200:]}")
+            undecided = True
+
     # ---- evidence
     level = cfg.get("level", "proof")
     fns = [{"target": r.target, "path": r.path, "lines": r.lines, "sha256": r.sha256, "dropped": r.dropped,
@@ -386,6 +400,8 @@ def check(pid, tier):
         "cover_obligations": len(cover), "vacuous": len(vacuous),
         "samples": samples,
         "bounded": bsum,
+        "lean_recheck": lean,
+        "syntactically_discharged": getattr(eng, "syntactic", 0),
         "known_findings": [{"id": k["id"], "what": k["what"], "reproduced": k["id"] in known_hit} for k in known],
         "carved_out_obligations": sorted({v["key"] for vs in known_hit.values() for v in vs}),
     }
